@@ -30,6 +30,7 @@ def search(res, tier, rng):
     for s in range(nsets):
         method = [("none",), ("mszip",), ("lzx", 16), ("qtm", 15), ("none",), ("mszip",)][s % 6]
         lens = [rng.choice([1, 2, 3, 5, 100, 700]), rng.choice([0, 4, 33000, 1500, 33000])]
+        if s % 6 in (4, 5): lens = [rng.choice([5, 100, 700]), rng.choice([33000, 66000])]     # several blocks: damage in one block, members reaching the others
         if method[0] in ("lzx", "qtm"): mem = [cabfmt.Member(b"a.bin", length=lens[0]), cabfmt.Member(b"b.bin", length=lens[1])]
         else: mem = cabfmt.random_members(rng, 2, lens=lens)
         f = cabfmt.Folder(method, mem)
@@ -57,6 +58,8 @@ def search(res, tier, rng):
                 region = region + "+flip"
                 scns.append(sc); meta.append((region, bytes(bad), pos, mem))
                 continue
+            for i in range(len(mem)):      # each member twice in a row, then all once more: a failed call must not make a later one accept the damage
+                sc.op("cab_extract", "c0", i, "out%d" % i); sc.op("cab_extract", "c0", i, "out%d" % i)
             for i in range(len(mem)): sc.op("cab_extract", "c0", i, "out%d" % i)
             scns.append(sc); meta.append((region, bytes(bad), pos, mem))
     trs = scenario.run_scenarios(exe, scns)
@@ -67,8 +70,10 @@ def search(res, tier, rng):
             res.violation("sanitizer report / crash on a cabinet with one corrupted byte: " + t.crash[-300:], sc.text() + "\n# " + t.crash[-1500:], key="crash")
             continue
         ex = [o for o in t.ops if o.name == "cab_extract"]
-        for i, o in enumerate(ex):
-            if region.endswith("+flip") and i == 0: continue      # extracted in relaxed mode: nothing is claimed for it
+        seen0 = False
+        for o in ex:
+            i = int(o.outname[3:]) if o.outname and o.outname.startswith("out") else 0
+            if region.endswith("+flip") and i == 0 and not seen0: seen0 = True; continue      # extracted in relaxed mode: nothing is claimed for it
             want = mem[i].data.hex()
             if region == "orig":
                 good = o.kv.get("st") == "0" and (o.out or "") == want
